@@ -1,5 +1,6 @@
 """C05 - Triangle evaluation equals the bivariate Bernstein definition."""
 from fractions import Fraction
+F = Fraction
 
 from common import enc_arr, enc_f, coq_q, coq_list, dyadic, dec_res, run_impl
 from framework import prove, correspond, finish
@@ -200,6 +201,22 @@ def run(ctx):
     correspond(ctx, "Triangle_evaluate_cartesian_verify", singles,
                [("Triangle.evaluate_cartesian", lambda c: [enc_arr(c["rows"])] + [enc_f(x) for x in c["cart"][0]], rows_out)],
                coq_verify("cart"), HEADER, "chk_Tri_cart_verify", nontrivial=nontriv)
+    # the public single-point methods with verify=False: any weights, in particular triples off the reference triangle in which one
+    # weight is exactly 1 (or 0) and the others are not the matching corner values; corresponded with the unverified model
+    nov = []
+    specials = [(F(1), F(1, 2), F(-1, 2)), (F(-1, 4), F(1), F(1, 4)), (F(1, 2), F(-1, 2), F(1)), (F(0), F(3, 2), F(-1, 2)),
+                (F(1), F(0), F(0)), (F(0), F(1), F(0)), (F(0), F(0), F(1)), (F(2), F(-1, 2), F(-1, 2))]
+    for c in cases[:: (4 if ctx.quick() else 1)]:
+        if c["d"] > 12:
+            continue
+        for p in specials[:: (2 if ctx.quick() else 1)]:
+            nov.append(dict(c, bary=[p], cart=[(p[1], p[2])]))
+    correspond(ctx, "Triangle_evaluate_barycentric_no_verify", nov,
+               [("Triangle.evaluate_barycentric", lambda c: [enc_arr(c["rows"])] + [enc_f(x) for x in c["bary"][0]] + [False], rows_out)],
+               coq_bary, HEADER, "chk_tri_bary", judge=judge_bary, nontrivial=nontriv)
+    correspond(ctx, "Triangle_evaluate_cartesian_no_verify", nov,
+               [("Triangle.evaluate_cartesian", lambda c: [enc_arr(c["rows"])] + [enc_f(x) for x in c["cart"][0]] + [False], rows_out)],
+               coq_cart, HEADER, "chk_tri_cart", judge=judge_cart, nontrivial=nontriv)
     small = [c for c in cases if c["d"] <= 20]
     correspond(ctx, "edges", small,
                [("Triangle.edges", lambda c: [enc_arr(c["rows"])], edges_out),
